@@ -212,6 +212,7 @@ func main() {
 	// 4. diffEnv: the limits, and whether equal encodings are accepted before any structural comparison
 	var limits []int
 	encFirst := false
+	eqUpToDate := false // `if eq { return true, … }` after EqualDepth: equal decodings are "up to date" (D25)
 	if fd := fn.Func("function.diffEnv"); fd != nil {
 		seenCompare := false
 		ast.Inspect(fd.Body, func(n ast.Node) bool {
@@ -229,6 +230,11 @@ func main() {
 				}
 			case *ast.IfStmt:
 				c := src(n.Cond)
+				if seenCompare && c == "eq" && len(n.Body.List) == 1 {
+					if r, ok := n.Body.List[0].(*ast.ReturnStmt); ok && len(r.Results) == 4 && src(r.Results[0]) == "true" {
+						eqUpToDate = true
+					}
+				}
 				if !seenCompare && (c == "f.newData == f.oldData" || c == "f.oldData == f.newData") && len(n.Body.List) == 1 {
 					if r, ok := n.Body.List[0].(*ast.ReturnStmt); ok && len(r.Results) == 4 && src(r.Results[0]) == "true" && src(r.Results[3]) == "nil" {
 						encFirst = true
@@ -243,6 +249,7 @@ func main() {
 	}
 	o.Def("compareLimits", "List Nat", lib.LeanNatList(limits))
 	o.Def("equalEncodingsFirst", "Bool", boolLit(encFirst))
+	o.Def("equalDecodingsUpToDate", "Bool", boolLit(eqUpToDate))
 	for _, name := range []string{"functionEnv", "function.upToDate", "envUnpickler", "makeDictFromAssociationList"} {
 		fd := fn.Func(name)
 		if fd == nil {
@@ -400,5 +407,13 @@ func main() {
 	o.Def("opcodes", "List Nat", lib.LeanNatList(codes))
 
 	b2s := map[bool]string{true: "1", false: "0"}
+	switch {
+	case !encFirst:
+		fmt.Println("decide=old")
+	case eqUpToDate:
+		fmt.Println("decide=d16")
+	default:
+		fmt.Println("decide=fixed")
+	}
 	fmt.Printf("cfg=%s%s%s%s%s%s\n", b2s[fixed], b2s[reencode], b2s[counter], b2s[builtinIdentity], b2s[signature], b2s[mandatory])
 }
